@@ -1,6 +1,7 @@
 //! C09 — closest-node lists (component tier on the real RoutingTable; wire tier in c09w).
 
 use super::table_common::*;
+use super::table_common::paused_rt;
 use crate::engine::*;
 use btdht::InfoHash;
 use proptest::collection::vec;
@@ -161,8 +162,231 @@ impl Stage for Closest {
 pub fn spec() -> PropertySpec {
     PropertySpec {
         id: "C09",
-        stages: vec![Box::new(Closest)],
+        stages: vec![Box::new(Closest), Box::new(Wire)],
         assumptions: vec!["Component tier: RoutingTable::closest_nodes through hook H2; the family filter and take(8) replicate what the query handler applies and are checked on the wire in the wire stage.".into()],
         explanation: "Oracle: set/multiset comparison of the iterator output against a full dump of all buckets.".into(),
+    }
+}
+
+// ---------------------------------------------------------------------------------------------
+// Wire tier: a real node whose table is populated through scripted contacts
+
+use crate::bcodec::{KBody, KMsg, KQuery, KResp, KWant};
+use crate::sim::{within, EvKind, Instant0, SimNet};
+use crate::world::*;
+use std::collections::HashSet;
+use std::time::Duration;
+
+#[derive(Clone, Debug, Serialize, Deserialize)]
+pub struct WPuppet {
+    /// number of leading bits shared with the node id
+    bit: u8,
+    tail: u8,
+    silent: bool,
+    other_family: bool,
+}
+
+#[derive(Clone, Debug, Serialize, Deserialize)]
+pub struct WQuery {
+    get_peers: bool,
+    target: Target,
+    want: KWant,
+}
+
+#[derive(Clone, Debug, Serialize, Deserialize)]
+pub struct WireCase {
+    v6: bool,
+    puppets: Vec<WPuppet>,
+    /// when the queries are made (s): shortly after bootstrap or after the 15-minute mark
+    at_s: u32,
+    queries: Vec<WQuery>,
+    full_dump: bool,
+    rt_seed: u64,
+}
+
+pub struct Wire;
+
+const WNODE: Id = [0x9c; 20];
+
+impl Stage for Wire {
+    type Case = WireCase;
+    fn name(&self) -> &'static str {
+        "wire"
+    }
+    fn cases(&self, tier: Tier) -> u32 {
+        tier.pick(1500, 20000)
+    }
+    fn strategy(&self, _t: Tier) -> BoxedStrategy<WireCase> {
+        let puppet = (prop_oneof![3 => 0u8..4, 3 => 0u8..12, 1 => 0u8..40], 0u8..30, prop::bool::weighted(0.15), prop::bool::weighted(0.1))
+            .prop_map(|(bit, tail, silent, other_family)| WPuppet { bit, tail, silent, other_family });
+        let q = (any::<bool>(), target(), super::c13::want()).prop_map(|(get_peers, target, want)| WQuery { get_peers, target, want });
+        (
+            any::<bool>(),
+            prop_oneof![1 => vec(puppet.clone(), 1..9), 3 => vec(puppet, 9..60)],
+            prop_oneof![3 => 30u32..120, 1 => 930u32..1100],
+            vec(q, 2..10),
+            prop::bool::weighted(0.5),
+            any::<u64>(),
+        )
+            .prop_map(|(v6, puppets, at_s, queries, full_dump, rt_seed)| WireCase { v6, puppets, at_s, queries, full_dump, rt_seed })
+            .boxed()
+    }
+    fn watchdog_secs(&self, tier: Tier) -> u64 {
+        tier.pick(600, 1800)
+    }
+    fn run(&self, c: &WireCase) -> Outcome {
+        let rt = paused_rt(c.rt_seed);
+        rt.block_on(async {
+            let net = SimNet::new(Box::new(Instant0));
+            let node = super::single::fam_addr(c.v6, 1, 6881);
+            // distinct (id, addr) per puppet
+            let mut world: Vec<(Id, SocketAddr)> = vec![];
+            let mut used: HashSet<Id> = HashSet::new();
+            for (i, p) in c.puppets.iter().enumerate() {
+                let mut id = make_id(&WNODE, p.bit as usize, p.tail);
+                id[19] = i as u8; // keep ids distinct without touching the shared prefix (bit < 152)
+                if !used.insert(id) {
+                    continue;
+                }
+                world.push((id, super::single::fam_addr(c.v6 ^ p.other_family, 100 + i as u16, 7000)));
+            }
+            let id_of_addr: std::collections::HashMap<SocketAddr, Id> = world.iter().map(|(i, a)| (*a, *i)).collect();
+            for (i, p) in c.puppets.iter().enumerate() {
+                let a = super::single::fam_addr(c.v6 ^ p.other_family, 100 + i as u16, 7000);
+                let Some(id) = id_of_addr.get(&a).copied() else { continue };
+                if p.silent {
+                    continue;
+                }
+                spawn_simple_contact(&net, a, id, world.clone(), 2);
+            }
+            let dht = start_node(&net, &NodeCfg { addr: node, id: WNODE, read_only: false, nodes: world.iter().map(|w| w.1).collect(), routers: vec![], announce_port: None });
+            net.sleep_until(Duration::from_secs(c.at_s as u64)).await;
+            let prober = super::single::fam_addr(c.v6, 900, 9000);
+            let live = |dht: btdht::MainlineDht| async move {
+                within(Duration::from_secs(2), dht.load_contacts()).await.and_then(|r| r.ok()).map(|(g, q)| g.union(&q).copied().collect::<HashSet<SocketAddr>>())
+            };
+            let ask = |q: KQuery| {
+                let net = net.clone();
+                async move {
+                    let start = net.log_len();
+                    net.inject(prober, node, &KMsg { tid: b"w9".to_vec(), body: KBody::Query(q) }.encode());
+                    net.settle().await;
+                    let replies: Vec<KResp> = sent_by(&net.log_from(start), node)
+                        .into_iter()
+                        .filter(|(e, _)| e.to == prober)
+                        .filter_map(|(_, m)| match m {
+                            Some(KMsg { body: KBody::Resp(r), .. }) => Some(r),
+                            _ => None,
+                        })
+                        .collect();
+                    replies
+                }
+            };
+            let mut nt = false;
+            for (n, q) in c.queries.iter().enumerate() {
+                let Some(before) = live(dht.clone()).await else { return Outcome::violation("node-dead", "load_contacts does not answer") };
+                let t: Id = match &q.target {
+                    Target::Local => WNODE,
+                    Target::Flip { bit, tail } => make_id(&WNODE, *bit as usize, *tail),
+                    Target::NearNode { k, tail } => {
+                        if world.is_empty() {
+                            WNODE
+                        } else {
+                            let node_id = world[idx(*k, world.len())].0;
+                            let keep = (lcp(&WNODE, &node_id) + 1 + (*tail as usize) * 3).min(159);
+                            make_id(&flip_bit(node_id, keep), keep, *tail)
+                        }
+                    }
+                    Target::Random(v) => to_id(v),
+                };
+                let query = if q.get_peers {
+                    KQuery::GetPeers { id: vec![0x31; 20], info_hash: t.to_vec(), want: q.want }
+                } else {
+                    KQuery::FindNode { id: vec![0x31; 20], target: t.to_vec(), want: q.want }
+                };
+                let replies = ask(query).await;
+                let Some(after) = live(dht.clone()).await else { return Outcome::violation("node-dead", "load_contacts does not answer") };
+                if replies.len() != 1 {
+                    return Outcome::violation("reply-count", format!("query #{n}: {} replies", replies.len()));
+                }
+                let r = &replies[0];
+                let (w4, w6) = match q.want {
+                    KWant::Absent => (!c.v6, c.v6),
+                    KWant::N4 => (true, false),
+                    KWant::N6 => (false, true),
+                    KWant::Both => (true, true),
+                };
+                for v6fam in [false, true] {
+                    let wanted = if v6fam { w6 } else { w4 };
+                    let listed: Vec<(Id, SocketAddr)> = if v6fam {
+                        r.nodes6.iter().map(|(i, a)| (*i, SocketAddr::V6(*a))).collect()
+                    } else {
+                        r.nodes.iter().map(|(i, a)| (*i, SocketAddr::V4(*a))).collect()
+                    };
+                    if !wanted {
+                        if !listed.is_empty() {
+                            return Outcome::violation("unrequested-family", format!("query #{n} want {:?}: {} nodes of family v6={v6fam}", q.want, listed.len()));
+                        }
+                        continue;
+                    }
+                    let both: HashSet<SocketAddr> = before.intersection(&after).filter(|a| a.is_ipv6() == v6fam).copied().collect();
+                    let either: HashSet<SocketAddr> = before.union(&after).filter(|a| a.is_ipv6() == v6fam).copied().collect();
+                    let what = format!("query #{n} ({} target {} want {:?}, family v6={v6fam})", if q.get_peers { "get_peers" } else { "find_node" }, crate::bcodec::hex(&t), q.want);
+                    let set: HashSet<(Id, SocketAddr)> = listed.iter().copied().collect();
+                    if set.len() != listed.len() {
+                        return Outcome::violation("duplicate-node-in-reply", format!("{what}: {} entries, {} distinct", listed.len(), set.len()));
+                    }
+                    for (i, a) in &listed {
+                        if !either.contains(a) || id_of_addr.get(a) != Some(i) {
+                            return Outcome::violation("reply-lists-node-not-in-table", format!("{what}: lists ({}, {a}) which is not a live table node (live: {})", crate::bcodec::hex(i), either.len()));
+                        }
+                    }
+                    if listed.len() < both.len().min(8) || listed.len() > either.len().min(8) {
+                        return Outcome::violation("wrong-number-of-nodes", format!("{what}: {} nodes listed, {}..{} live nodes of that family", listed.len(), both.len(), either.len()));
+                    }
+                    let start = lcp(&WNODE, &t);
+                    let must: Vec<&SocketAddr> = both.iter().filter(|a| lcp(&id_of_addr[*a], &t) > start).collect();
+                    for m in &must {
+                        if !listed.iter().any(|(_, a)| a == *m) {
+                            return Outcome::violation(
+                                "closer-node-omitted",
+                                format!("{what}: live node {m} shares {} prefix bits with the target (local node shares {start}) but is not listed; listed {:?}", lcp(&id_of_addr[*m], &t), listed.iter().map(|l| l.1).collect::<Vec<_>>()),
+                            );
+                        }
+                    }
+                    if !must.is_empty() && both.len() >= 9 {
+                        nt = true;
+                    }
+                }
+            }
+            if c.full_dump {
+                // 161 probes: union of the answers is the whole live table
+                let Some(before) = live(dht.clone()).await else { return Outcome::violation("node-dead", "load_contacts does not answer") };
+                let mut union: HashSet<SocketAddr> = HashSet::new();
+                for bit in 0..=160usize {
+                    let t = if bit == 160 { WNODE } else { flip_bit(WNODE, bit) };
+                    for r in ask(KQuery::FindNode { id: vec![0x31; 20], target: t.to_vec(), want: KWant::Both }).await {
+                        union.extend(r.nodes.iter().map(|n| SocketAddr::V4(n.1)));
+                        union.extend(r.nodes6.iter().map(|n| SocketAddr::V6(n.1)));
+                    }
+                }
+                let Some(after) = live(dht.clone()).await else { return Outcome::violation("node-dead", "load_contacts does not answer") };
+                let both: HashSet<SocketAddr> = before.intersection(&after).copied().collect();
+                let either: HashSet<SocketAddr> = before.union(&after).copied().collect();
+                if let Some(a) = both.iter().find(|a| !union.contains(a)) {
+                    return Outcome::violation("dump-misses-live-node", format!("the 161 find_node probes never list live node {a} ({} live, {} listed)", both.len(), union.len()));
+                }
+                if let Some(a) = union.iter().find(|a| !either.contains(a)) {
+                    return Outcome::violation("dump-lists-dead-node", format!("a find_node probe lists {a} which is not in the contacts"));
+                }
+            }
+            Outcome::pass(nt).label(if c.at_s > 900 { "after-15-min" } else { "fresh" }).label(if world.len() >= 9 { "table>=9" } else { "table<9" })
+        })
+    }
+    fn rule(&self) -> String {
+        "one real serving node whose routing table is populated through 1..59 scripted contacts with ids clustered around the node id (0..40 shared prefix bits, forcing splits), 15 % silent, 10 % of the other address family, all naming each other; at 30..120 s (fresh) or 15.5..18 min (stale entries) 2..9 find_node/get_peers queries with generated targets (own id, single-bit flips, near a table node, random) and want, each bracketed by load_contacts() snapshots; optionally 161 find_node probes (own id and its 160 single-bit flips). Oracle per requested family: distinct entries, each a live table node with its true id, exactly min(8, live) entries, containing every live node that shares a longer prefix with the target than the node itself; the probes' union equals the live table. Non-trivial: >= 9 live nodes of the family and a non-empty must-contain set".into()
+    }
+    fn sample(&self, c: &WireCase) -> serde_json::Value {
+        serde_json::json!({"puppets": c.puppets.len(), "at_s": c.at_s, "full_dump": c.full_dump, "queries": c.queries.iter().take(4).map(|q| format!("{q:?}")).collect::<Vec<_>>()})
     }
 }
